@@ -180,7 +180,7 @@ impl<K: KeyT> World<K> {
             };
             match res {
                 Caught::Ok(Ok(c)) => {
-                    self.slots[b] = Slot { obj: Obj::Rodeo(c), shadow: self.slots[a].shadow.clone(), born: "" };
+                    self.slots[b] = Slot { obj: Obj::Rodeo(c), shadow: self.slots[a].shadow.clone(), born: "C12" };
                     // the copy holds no static references: everything was copied into its arena
                     for s in self.slots[b].shadow.stat.iter_mut() {
                         *s = None;
@@ -232,6 +232,7 @@ impl<K: KeyT> World<K> {
             match res {
                 Caught::Ok(Ok(())) => {
                     self.slots[a].shadow = src_shadow;
+                    self.slots[a].born = "C12";
                     for s in self.slots[a].shadow.stat.iter_mut() {
                         *s = None;
                     }
@@ -298,6 +299,9 @@ impl<K: KeyT> World<K> {
         match res {
             Caught::Ok(Some(o)) => {
                 self.slots[si].obj = o;
+                if self.slots[si].born.is_empty() {
+                    self.slots[si].born = "C06";
+                }
                 "ok".into()
             }
             Caught::Ok(None) => "bad-op".into(),
